@@ -38,7 +38,26 @@ func runC10(c *core.Ctx) {
 	c.Rule("R5", "Map forwards fn(v) of every origin value to the new publisher through exactly one subscription; Unsubscribe keeps removing until no occurrence is left", 2)
 	li := core.ComputeLocks(p)
 	c.Rule("R6", "every lock a Publisher method takes is released in the same mode on every return path", 1)
-	lockBalance(c, li, "R6", funcsOfType(p, p.Fpgo, "PublisherDef"))
+	{
+		fns := funcsOfType(p, p.Fpgo, "PublisherDef")
+		// lock wrappers handed the publisher's mutex (`doSubscribeSafe(&x.subscribeM, fn)`) belong to it as well
+		seen := map[*ssa.Function]bool{}
+		for _, f := range fns {
+			core.Instrs(f, func(ins ssa.Instruction) {
+				if call, isC := ins.(*ssa.Call); isC {
+					if g := core.Callee(&call.Call); g != nil && p.InRepo(g) && len(g.Blocks) > 0 && !seen[g] {
+						for _, a := range call.Call.Args {
+							if core.FieldKey(a) == "PublisherDef.subscribeM" {
+								seen[g] = true
+								fns = append(fns, g)
+							}
+						}
+					}
+				}
+			})
+		}
+		lockBalance(c, li, "R6", fns)
+	}
 	// ---- R1 / R2
 	nAcc := 0
 	for _, f := range p.Funcs {
@@ -262,6 +281,26 @@ func runC10(c *core.Ctx) {
 					}
 				}
 			})
+			if !srcOK {
+				// general form: every origin of the iterated value (through helpers and through the result of a callback
+				// handed to a lock wrapper) is the publisher's current list
+				core.Instrs(pub, func(ins ssa.Instruction) {
+					ia, isIA := ins.(*ssa.IndexAddr)
+					if !isIA || !core.InLoop(ia.Block()) {
+						return
+					}
+					leaves := core.Origins(p, ia.X, nil)
+					all := len(leaves) > 0
+					for _, lf := range leaves {
+						if ok3, _ := c10isCurrentList(lf.Val, 0); !ok3 {
+							all = false
+						}
+					}
+					if all {
+						srcOK = true
+					}
+				})
+			}
 			c.Check(srcOK, "R3", "PublisherDef.Publish/source", p.Pos(pub.Pos()), "the delivery loop visits the publisher's subscriber list (snapshot read under the lock)", "the delivery loop does not visit the publisher's subscriber list: subscribers are not reached")
 			c.Check(guarded && min == 1 && max == 1, "R3", "PublisherDef.Publish/once-per-subscriber", p.InstrPos(deliver),
 				"under OnNext != nil exactly one of {call, Post} of the delivery closure on every path",
